@@ -72,6 +72,40 @@ def build(t):
     raise ValueError(op)
 
 
+def apply_top(t, args):
+    """the top constructor of term t applied to already built argument objects"""
+    from src import quadrature as q
+    op = t["op"]
+    a = args[0]
+    if op == "mirror":
+        return a.mirror()
+    if op == "product2":
+        return q.ProductScheme2D(a, args[1])
+    if op == "product3":
+        return q.ProductScheme3D(a)
+    if op in ("mirror_x", "mirror_y", "mirror_z"):
+        return getattr(a, op)()
+    if op == "duffy2":
+        return q.DuffyScheme2D(a, symmetric=t["sym"])
+    if op == "duffy_id3":
+        return q.DuffySchemeIdentical3D(a, symmetric_xy=t["sym"])
+    if op == "duffy_touch3":
+        return q.DuffySchemeTouch3D(a)
+    raise ValueError(op)
+
+
+def arg_terms(t):
+    return [t["a"], t["b"]] if t["op"] == "product2" else [t["a"]] if t["op"] == "product3" else [t["arg"]]
+
+
+def snapshot(s):
+    return (np.array(s.points, dtype=float, copy=True), np.array(s.weights, dtype=float, copy=True))
+
+
+def same(a, b):
+    return a[0].shape == b[0].shape and a[1].shape == b[1].shape and np.array_equal(a[0], b[0]) and np.array_equal(a[1], b[1])
+
+
 def dim(t):
     op = t["op"]
     if op in ("base", "mirror"):
@@ -233,6 +267,22 @@ def run(prop, tier, seed):
         d = float(np.max(np.abs(P - exp))) if P.shape == exp.shape else 1.0
         wdiff = float(np.max(np.abs(np.asarray(sm.weights) - np.asarray(sa.weights)))) if np.shape(sm.weights) == np.shape(sa.weights) else 1.0
         recs.append({"k": "law", "law": "mirror-is-not-the-reflection", "dev": dev(max(d, wdiff), 0.0, 1e-15), "term": t})
+    # constructors are pure: building a derived scheme leaves the schemes it is built from unchanged, and a second
+    # scheme built from the same argument objects equals the first (a base rule may be shared by many schemes)
+    for t in T:
+        if t["op"] == "base":
+            continue
+        try:
+            args = [build(a) for a in arg_terms(t)]
+            before = [snapshot(a) for a in args]
+            first = snapshot(apply_top(t, args))
+            after = [snapshot(a) for a in args]
+            second = snapshot(apply_top(t, args))
+        except Exception as ex:
+            ctx.violation("constructor-failed:%s" % t["op"], "building %r from shared arguments failed: %r" % (t, ex), {"term": t})
+            continue
+        recs.append({"k": "law", "law": "constructor-changes-its-argument", "dev": 0 if all(same(x, y) for x, y in zip(before, after)) else 10 ** 9, "term": t})
+        recs.append({"k": "law", "law": "second-scheme-from-same-argument-differs", "dev": 0 if same(first, second) else 10 ** 9, "term": t})
     # mapped 1-D rules on short intervals far from the origin (measure and first moments)
     for b in bases:
         for tterm in (dict(op="base", fam=b["fam"], key=list(b["key"]), deg=b["deg"]),):
